@@ -77,6 +77,13 @@ fn engine_of(prop: &str) -> &'static str {
     }
 }
 
+pub fn run_case_pub(prop: &str, seed: u64) -> CaseOutcome {
+    run_case(prop, seed)
+}
+pub fn replay_case_pub(prop: &str, case: &Value) -> Result<CaseOutcome, String> {
+    replay_case(prop, case)
+}
+
 fn run_case(prop: &str, seed: u64) -> CaseOutcome {
     if prop == "C06" && seed & 1 == 1 {
         // half of the C06 cases are generated / corrupted directory media rather than histories
